@@ -4,7 +4,7 @@
    fault tail).  Executable definitions only; proofs in Proofs/Fault.v. *)
 From Coq Require Import List NArith Bool Arith.
 Import ListNotations.
-From OV Require Import Base.Cases Base.ErrClass Model.Latch Gen.Continuable.
+From OV Require Import Base.Cases Base.ErrClass Model.Latch Gen.Continuable Model.Chunk.
 
 Definition rcls_eqb (a b : rcls) : bool :=
   match a, b with
@@ -44,12 +44,12 @@ Definition transform_terminal (fmt : nat) (c : rcls) : bool :=
 Inductive fcase :=
 | FProbe (failed : bool)
     (* NewTransform's BOM probe met the fault on its very first read: NewTransform must fail *)
-| FReader (fmt : nat) (c : rcls) (cont : bool) (terminal : bool).
-    (* the reader turned the fault into class c, answered IsContinuableError = cont, and the
-       Transform result was terminal (non-EOF, non-ErrTransformFailed) or not *)
+| FReader (fmt : nat) (c : rcls) (cont : bool) (terminal : bool)
+| FComp (c : ccase).
 
 Definition check_case (x : fcase) : bool :=
   match x with
+  | FComp c => Chunk.check_case c
   | FProbe failed => failed
   | FReader fmt c cont terminal =>
       existsb (rcls_eqb c) (fault_classes fmt)
